@@ -72,7 +72,47 @@ pub fn gen_for_generator(rng: &mut Rng, idx: usize, risky_pct: usize, depth: usi
     }
     let mut risky = None;
     if rng.below(100) < risky_pct {
-        match rng.below(4) {
+        match rng.below(9) {
+            4 => {
+                // an input parameter spelled like the generated server method's own `call` argument
+                idl.members.push(Member { kind: MKind::Method, name: "RiskyCallField".into(), comments: vec![], a: Ty::Struct(vec![("call".into(), Ty::Int), ("x".into(), Ty::Str)]), b: Some(Ty::Struct(vec![("call".into(), Ty::Int)])) });
+                risky = Some(("field-named-call".to_string(), "RiskyCallField.call".to_string()));
+            }
+            5 => {
+                // a method whose snake_case name is an item of the generated server trait
+                if !idl.members.iter().any(|m| m.name == "CallUpgraded") {
+                    idl.members.push(Member { kind: MKind::Method, name: "CallUpgraded".into(), comments: vec![], a: Ty::Struct(vec![("a".into(), Ty::Int)]), b: Some(Ty::Struct(vec![("b".into(), Ty::Str)])) });
+                    risky = Some(("method-named-like-generated-trait-item".to_string(), "CallUpgraded".to_string()));
+                }
+            }
+            6 => {
+                // two anonymous types whose generated names coincide: M_Args_a_b from `a_b: (..)` and from `a: (b: (..))`
+                idl.members.push(Member {
+                    kind: MKind::Method,
+                    name: "RiskyAnonNames".into(),
+                    comments: vec![],
+                    a: Ty::Struct(vec![("a_b".into(), Ty::Struct(vec![("x".into(), Ty::Int)])), ("a".into(), Ty::Struct(vec![("b".into(), Ty::Struct(vec![("y".into(), Ty::Str)]))]))]),
+                    b: Some(Ty::Struct(vec![])),
+                });
+                risky = Some(("anonymous-type-names-collide".to_string(), "RiskyAnonNames".to_string()));
+            }
+            7 => {
+                // two method names that differ only in the case of inner letters
+                if !idl.members.iter().any(|m| m.name == "FooBar" || m.name == "FOoBar") {
+                    for n in ["FooBar", "FOoBar"] {
+                        idl.members.push(Member { kind: MKind::Method, name: n.into(), comments: vec![], a: Ty::Struct(vec![("a".into(), Ty::Int)]), b: Some(Ty::Struct(vec![])) });
+                    }
+                    risky = Some(("method-names-collide-in-snake-case".to_string(), "FooBar/FOoBar".to_string()));
+                }
+            }
+            8 => {
+                // a declared error whose reply helper is spelled like one of CallTrait's
+                let n = *rng.pick(&["InvalidParameter", "MethodNotFound"]);
+                if !idl.members.iter().any(|m| m.name == n) {
+                    idl.members.push(Member { kind: MKind::Error, name: n.into(), comments: vec![], a: Ty::Struct(vec![("x".into(), Ty::Int)]), b: None });
+                    risky = Some(("error-named-like-a-calltrait-reply".to_string(), n.to_string()));
+                }
+            }
             0 => {
                 // anonymous struct/enum in an error parameter
                 let anon = if rng.chance(1, 2) { Ty::Enum(vec!["one".into(), "two".into()]) } else { Ty::Struct(vec![("a".into(), Ty::Int), ("b".into(), Ty::Array(Box::new(Ty::Str)))]) };
